@@ -12,7 +12,8 @@ LEVEL = ("Static error-discipline analysis of the worker closure, the controller
          " Added: a rejected starting point leaves the retry loop only under an is_recoverable() == false test (R3); no Result-typed local is assigned and never read outside the confirmed sites (R6)."
          " Added (round 4): no integer / Duration division with a divisor that can be zero and is not guarded (R9); no write-only error accumulator (R10); both with planted positive controls."
          " Added (round 5): unwrapped float-to-integer conversions have a bounded operand (R11); Sampler::abort drains the results channel and carries a chain error into its result (R12; decided F16); the worker returns Ok only behind Model::math and the initialisation loop (R3 ok-after-init)."
-         " Added (round 6): no byte offset into a string that is not derived from its character boundaries (R13, positive control); no Err of a function's own making is reachable from a Divergence arm (R14); R11 carries a positive control instead of a floor.")
+         " Added (round 6): no byte offset into a string that is not derived from its character boundaries (R13, positive control); no Err of a function's own making is reachable from a Divergence arm (R14); R11 carries a positive control instead of a floor."
+         " Added (round 7): no unguarded unwrap / expect of a value derived from a DivergenceInfo field (R15, positive control).")
 EXPLANATION = ("ERR classification of every consumer of a fallible call result in the scope bodies (MIR def-use), with an explicit "
                "table of accepted non-propagating idioms (one reason each); HIR arm analysis of wait_timeout/abort.")
 TRUSTED = ["rustc nightly MIR", "nutsfacts extractor", "rules/err.py classification"]
@@ -827,6 +828,67 @@ def r13(F, R):
 
 
 
+
+PANICKING_EXTRACTORS = {"unwrap", "expect", "unwrap_unchecked", "unwrap_err", "expect_err"}
+
+
+def _fault_record_unwraps(F, in_scope, record="DivergenceInfo"):
+    """Calls of Option/Result::unwrap/expect whose receiver is derived (data flow, flow-insensitive backward slice) from a field of a
+    local of type `record`. Returns [(body, bb, term, field names, guarded)]; guarded = the call is control-dependent on a test that reads
+    one of the same fields (is_some / match)."""
+    hits = []
+    for b in sorted(F.bodies.values(), key=lambda x: x.path):
+        if not in_scope(b) or K.is_std_derive(b):
+            continue
+        for bb, t in b.calls():
+            c = t["callee"]
+            nm = c.get("name")
+            p = strip_generics(c.get("path", ""))
+            if nm not in PANICKING_EXTRACTORS or not ("option::Option::" in p or "result::Result::" in p):
+                continue
+            if not t["args"]:
+                continue
+            sl = b.slice(t["args"][:1], control=False)
+            flds = set()
+            for (l, names) in sl["roots"]:
+                try:
+                    ty = b.local_ty(l)
+                except Exception:
+                    continue
+                if record in ty and names:
+                    flds.add(names[0])
+            for (l, names) in sl["args"]:
+                if names and record in b.local_ty(l):
+                    flds.add(names[0])
+            if not flds:
+                continue
+            g = b.slice([], control=True, start_bb=bb)
+            hits.append((b, bb, t, sorted(flds), bool(set(flds) & set(g["fields"]))))
+    return hits
+
+
+def r15(F, R):
+    R.rule("C13-R15", "no panicking extraction from the record of a density fault: `DivergenceInfo` is what a fault leaves behind, and which of its optional fields are "
+                      "filled depends on the kind of fault (an energy divergence has an end point and an energy error, a recoverable density error has neither). "
+                      "`unwrap` / `expect` on a value derived from one of its fields, not guarded by a test of the same field, panics for the kinds that leave it "
+                      "empty - in the chain worker, where it poisons the locks and reaches the caller as a panic instead of a divergence or an Err")
+    hits = _fault_record_unwraps(F, lambda b: not ("::tests::" in b.path or b.path.startswith("tests::")))
+    bad = [h for h in hits if not h[4]]
+    for (b, bb, t, flds, _g) in bad:
+        R.bad("C13-R15", "%s:%s:%s" % (b.path, t["callee"].get("name"), "+".join(flds)), "%s @%s" % (b.path, loc(t["span"])),
+              "%s() of a value derived from DivergenceInfo.%s without a test of that field: a fault that leaves the field empty becomes a panic of the chain worker"
+              % (t["callee"].get("name"), "/".join(flds)))
+    if not bad:
+        R.ok("C13-R15", "scan", "library crates", "%d bodies: %d unwrap/expect of a DivergenceInfo field, all guarded by a test of the same field" % (len(F.bodies), len(hits)))
+    P = K.positive_facts()
+    ph = {b.path.split("::{")[0].split("::")[-1]: g for (b, _bb, _t, _f, g) in _fault_record_unwraps(P, lambda b: True)}
+    if ph.get("c13_fault_record_expect") is False and ph.get("c13_fault_record_unwrap") is False and ph.get("c13_fault_record_guarded") is True \
+            and "c13_fault_record_total" not in ph:
+        R.ok("C13-R15", "positive-control", "fixtures/positive", "the planted expect (in a closure) and unwrap are reported, the guarded unwrap is recognised, unwrap_or is not matched")
+    else:
+        R.bad("C13-R15", "positive-control", "fixtures/positive", "matcher disagrees with the planted constructs: %s" % sorted(ph.items()))
+
+
 def _carries_divergence(F, b, rv):
     """Is the payload of this `Err(..)` a variant of a workspace enum whose field is the DivergenceInfo itself (a tree-building outcome, not an error)?"""
     ops = rv.get("ops") or []
@@ -904,6 +966,7 @@ def run(F, R, config="all"):
     r12(F, R)
     r13(F, R)
     r14(F, R)
+    r15(F, R)
     # a panic in the chain worker is not an Err: the MCLMC retry bookkeeping must cover its step budget or `assert!(steps_taken >= num_base_steps)` fires
     from . import c18
     K.borrow_rule(R, lambda sub: c18.r4(F, sub), "C13-R7", "recoverable density errors inside an MCLMC trajectory are retried with a smaller step without ever tripping the "
